@@ -270,8 +270,10 @@ def ref_allows_K(buf):
 
 
 class ReportHooks(QHooks):
-    precise = frozenset(['L:k', 'L:j'])
     tracked = frozenset(['RO'])
+
+    def precise_arith(self, path):
+        return True         # report() has two counters whatever they are called; the output length bounds both
 
     def __init__(self):
         self.sites = {}
@@ -671,7 +673,8 @@ def report_explore(db, rep):
         for w in ws:
             for n in ([0, 1, 2, 3, 4, 5] if kind == 'exit0' else [0, 2]):
                 e5 = Engine(db, pr, H5, max_states=400000)
-                e5.run(rp, {'report::P:wstat': fs(w), 'report::P:len': fs(n), 'report::P:s': fs(('&', 'RO[0]')), '$len': fs(n), '$kind': fs(kind)})
+                fid = e5.frame_id(rp)
+                e5.run(rp, {'%s::%s' % (fid, rp.params[1]): fs(w), '%s::%s' % (fid, rp.params[3]): fs(n), '%s::%s' % (fid, rp.params[2]): fs(('&', 'RO[0]')), '$len': fs(n), '$kind': fs(kind)})
                 st5 += e5.states
                 rep.count_states(e5.states, e5.transitions)
     if H5.puts < 5:
